@@ -407,6 +407,20 @@ class Engine:
 
     def run_path(self, st, work):
         while True:
+            # a global budget of executed blocks per engine: an evaluation that does not terminate (a loop whose exit the
+            # models cannot decide) ends as a cut path -- "no verdict" for the rule -- instead of hanging the check
+            self.steps = getattr(self, "steps", 0) + 1
+            if self.steps % 512 == 1 and getattr(self, "strict_flow", False):      # only the supplementary evaluation rules are budgeted
+                import time as _time
+                now = _time.time()
+                if not hasattr(self, "deadline"):
+                    self.deadline = now + getattr(self, "max_seconds", 40)
+                if now > self.deadline:
+                    self.steps = 1 << 62
+            if getattr(self, "strict_flow", False) and self.steps > getattr(self, "max_steps", 6000000):
+                st.flags.add("cut")
+                st.flags.add("step-budget")
+                return Path(st, TOP, None)
             self.cur_state = st
             fr = st.frames[-1]
             fn = fr.fn
@@ -611,6 +625,9 @@ class Engine:
             return None
         # unknown discriminant / TOP: explore all successors, flagged
         st.flags.add("top-branch")
+        if getattr(self, "strict_flow", False):
+            # concrete-size evaluation needs every branch decided: give up at once instead of exploring both sides of a loop exit
+            self.steps = 1 << 62
         for s in succs[1:]:
             st2 = st.fork()
             st2.frames[-1].bb = s
